@@ -60,7 +60,7 @@ class Cmp(object):
         except Exception:
             self.ob(False, '%s: real expected (%r -> %r)' % (where, a, b)); return
         if exact:
-            self.ob(a == b, '%s: identical after a second cycle (%r -> %r)' % (where, a, b)); return
+            self.ob(a == b, '%s: identical (%r -> %r)' % (where, a, b)); return
         want = float(('%.' + str(p) + kind) % (a / scale)) * scale
         self.ob(b == want, '%s: equals the %d printed decimals (%r -> %r, expected %r)' % (where, p, a, b, want))
 
@@ -111,6 +111,17 @@ def replay(d):
                     la, lb = a.split('\n'), b.split('\n')
                     diff = [(i, x, y) for i, (x, y) in enumerate(zip(la, lb)) if x != y][:2]
                     cmp.problems.append('rewrite: second write differs from the first: %r' % (diff or (len(la), len(lb)),))
+                if shape.get('reuse'):
+                    # the file is read by an object that already holds a geometry (the writer
+                    # itself, or another one): it must end up like the fresh object g2
+                    W = 'reuse-self ' if shape['reuse'] == 'self' else 'reuse-other '
+                    try: h = MODEL.prior(prov, M, np, shape, geo)
+                    except MODEL.Rejected as ex: raise _Stop()
+                    h.read('g1.dat')
+                    MODEL.compare(cmp, g2, h, exact=True, where=W)
+                    h.write('gr.dat')
+                    if open('g2.dat').read() != open('gr.dat').read():
+                        cmp.problems.append(W + 'rewrite: the re-used object does not write the same file as a fresh one')
                 if shape.get('edit'):
                     try: edited = MODEL.edit(prov, g2, shape)
                     except MODEL.Rejected as ex: raise _Stop()
